@@ -240,7 +240,7 @@ def run(tier, seed, replay=None):
     build = lib.Build().run()
     rep.proof = lib.compile_props(PID)
     rng = lib.rng_for(seed, PID)
-    n = 48 if tier == 'quick' else 1200
+    n = 48 if tier == 'quick' else 9600
     cases = [gen_case(rng, c) for c in range(n)] + [gen_missing(rng, n + c) for c in range(n // 2)]
     results = lib.run_sessions(cases)
     lib.std_checks(rep, results, oracle)
